@@ -1119,8 +1119,10 @@ fn block_expr_to_asg_type(block_synast: synast::BlockExpr, context: &mut Context
 fn block_or_stmt_to_asg_type(val: oq3_syntax::BlockOrStmt, context: &mut Context) -> asg::Block {
     match val {
         oq3_syntax::BlockOrStmt::BlockExpr(body) => block_expr_to_asg_type(body, context),
+        // A statement that has no translation (an `include` that is reported and skipped,
+        // an annotation) gives an empty block.
         oq3_syntax::BlockOrStmt::Stmt(stmt) => {
-            asg::Block::new(vec![stmt_to_asg_stmt(stmt, context).unwrap()])
+            asg::Block::new(stmt_to_asg_stmt(stmt, context).into_iter().collect())
         }
     }
 }
